@@ -184,10 +184,23 @@ def run(R):
             tree = ([{"p": "pkg", "k": "d", "m": 0o755}] if d else []) + [
                 {"p": d + gen.render(a, S) + ".txt", "k": "f", "c": f"payload {k} of {S}\n".encode(), "m": 0o644} for k, S in enumerate(styles)]
         cmds = [["rename", gen.render(a, "Snake"), word], ["replace", "[-_.]".join(a), word]]
+        if j % 4 == 3 and len(styles) >= 2:
+            # the colliding files named one by one as search paths, each through a different spelling of their directory
+            # (a symlinked directory, a detour through ..): still the same two files
+            names = [gen.render(a, S) + ".txt" for S in ("Snake", "Kebab")]       # both present when j is odd, both default styles
+            base = d.rstrip("/") or "."
+            tree = tree + [{"p": "alias_dir", "k": "l", "t": base}]
+            spell = ["alias_dir/" + names[0], (base + "/../" + base + "/" if d else "./") + names[1]]
+            cmds = [["rename", gen.render(a, "Snake"), word] + spell + ["--rename-root"], ["PLAN_APPLY", gen.render(a, "Snake"), word] + spell]
         for cmd in cmds[: 2 if j % 2 else 1]:
             with cli.Sandbox(tree) as sb:
                 before = sorted(v[2] for v in sb.snapshot().values() if v[0] == "f")
-                rc, o, e = sb.run(["--no-auto-init", "-y"] + cmd)
+                if cmd[0] == "PLAN_APPLY":
+                    rc, o, e = sb.run(["--no-auto-init", "plan"] + cmd[1:] + ["--quiet"])
+                    if rc == 0:
+                        rc, o, e = sb.run(["--no-auto-init", "-y", "apply"])
+                else:
+                    rc, o, e = sb.run(["--no-auto-init", "-y"] + cmd)
                 after_snap = sb.snapshot()
                 after = sorted(v[2] for v in after_snap.values() if v[0] == "f")
                 R.case(("many_to_one", tuple(cmd), tuple(styles), d), nontrivial=True)
